@@ -171,6 +171,7 @@ fn one_query(robot: &KinematicsWithShape, q: &Query) -> QObs {
 }
 
 fn execute(robot: &Arc<KinematicsWithShape>, case: &Case, cfg: &SimCfg) -> SimOut<Vec<QObs>> {
+    report::progress_case(|| { let mut c = case.clone(); c.cfgs = vec![cfg.clone()]; c.reconfigure = None; json!({"check": "C11", "case": c}) });
     let robot = robot.clone();
     let queries = case.queries.clone();
     let clients = case.clients.max(1);
@@ -645,6 +646,7 @@ pub fn run(tier_name: &str, seed: u64) -> i32 {
     let tally = report::run_shards(t.shards, |shard| {
         let mut tally = Tally::default();
         for run in 0..t.per_shard {
+            report::progress(shard, run);
             let case = gen_case(seed, shard as u64, run as u64, &t);
             tally.bump(&format!("ctor_{:?}", case.cell.ctor).to_lowercase().replace(['(', ')'], "_"), 1);
             let mut robot = Arc::new(case.cell.build_robot());
